@@ -129,7 +129,7 @@ def depth_cap(p, quick):
     if (p.family == "form" and p.shape == "short-fn") or (p.family == "parse" and p.consumer == "eval-string"
                                                            and p.shape == "shortfn"):
         return 256 if quick else 512            # nested |(...) expansion is quadratic in memory (GC locked)
-    if p.consumer in ("compose/comptime", "compose/compile-in-macro"):
+    if p.consumer in ("compose/comptime", "compose/compile-in-macro", "compose/quasiquote-unquote"):
         return 4096                             # input size is 500 x depth
     if p.family == "accum" and p.shape in ("step-1", "step-7"):
         return 4096                             # rounds x chain length: quadratic once the guard does not stop it
@@ -325,6 +325,9 @@ MINIMAL = {
         "(var fib (fiber/new step)) (repeat 100000 (set fib (fiber/new (resume fib)))) (resume fib) (gccollect)",
     "crash:compose/comptime":
         "(defn form [levels] (var x 1) (repeat levels (repeat 900 (set x ['+ 1 x])) (set x ['comptime x])) x)\n(eval (form 60))",
+    "crash:compose/quasiquote-unquote":
+        "(defn form [levels] (var x 1) (repeat levels (repeat 900 (set x [x])) (set x ['unquote ['quasiquote x]])) ['quasiquote x])\n"
+        "(compile (form 40))",
     "crash:compose/peg-in-peg":
         "(def text (string (string/repeat \"(\" 300) \"x\" (string/repeat \")\" 300))) (var level 0) (var g nil)\n"
         "(defn cb [x] (when (< level 300) (++ level) (peg/match g text) (-- level)) x)\n"
